@@ -1,0 +1,62 @@
+//go:build verif
+
+package internal
+
+import "github.com/bilibili/smgo/sm2/internal/fiat"
+
+// Exports for the verification harness.
+
+// VerifScalarBaseMult runs one of the four fixed-base schemes:
+// 0 = 4-2-32, 1 = 5-3-17, 2 = 6-3-14 (the one ScalarBaseMult uses), 3 = 7-3-12.
+func VerifScalarBaseMult(scheme int, k []byte) (*SM2Point, error) {
+	switch scheme {
+	case 0:
+		return scalarBaseMult_SkipBitExtraction_4_2_32(k)
+	case 1:
+		return scalarBaseMult_SkipBitExtraction_5_3_17(k)
+	case 2:
+		return scalarBaseMult_SkipBitExtraction_6_3_14(k)
+	case 3:
+		return scalarBaseMult_SkipBitExtraction_7_3_12(k)
+	}
+	panic("no such scheme")
+}
+
+func VerifDoubleAndAdd(q *SM2Point, scalar []byte) (*SM2Point, error) {
+	return scalarMult_Unsafe_DaA(q, scalar)
+}
+
+// VerifPoint builds a point from an arbitrary projective representative.
+func VerifPoint(x, y, z *fiat.SM2Element) *SM2Point {
+	return &SM2Point{
+		x: new(fiat.SM2Element).Set(x),
+		y: new(fiat.SM2Element).Set(y),
+		z: new(fiat.SM2Element).Set(z),
+	}
+}
+
+// VerifXYZ returns copies of the projective coordinates.
+func (p *SM2Point) VerifXYZ() (x, y, z *fiat.SM2Element) {
+	return new(fiat.SM2Element).Set(p.x), new(fiat.SM2Element).Set(p.y), new(fiat.SM2Element).Set(p.z)
+}
+
+// VerifTables returns the four comb tables and their remainder tables (nil when absent),
+// in the order 4-2-32, 5-3-17, 6-3-14, 7-3-12.
+func VerifTables() (first [4][][][]*[4]uint64, second [4][][]*[4]uint64) {
+	first = [4][][][]*[4]uint64{sm2Precomputed_4_2_32, sm2Precomputed_5_3_17, sm2Precomputed_6_3_14, sm2Precomputed_7_3_12}
+	second = [4][][]*[4]uint64{nil, sm2Precomputed_5_3_17_Remainder, sm2Precomputed_6_3_14_Remainder, sm2Precomputed_7_3_12_Remainder}
+	return
+}
+
+func VerifExtractHigherBits(k []byte, idx, window, stepSize int) byte {
+	return extractHigherBits(k, idx, window, stepSize)
+}
+func VerifExtractLowerBits(k []byte, count int) byte { return extractLowerBits(k, count) }
+func VerifExtractBit(k []byte, idx int) byte        { return extractBit(k, idx) }
+
+func VerifSelectPoints(out *SM2Point, precomputed *[][]*[4]uint64, width int, bits byte) *SM2Point {
+	return selectPoints(out, precomputed, width, bits)
+}
+
+func VerifB() *fiat.SM2Element { return new(fiat.SM2Element).Set(sm2B) }
+func VerifG() *SM2Point        { return NewSM2Generator() }
